@@ -312,6 +312,8 @@ def run(ck: Checker) -> None:
     ck.guard("R-PRESENCE", lambda: T.r_presence(ck))
     from .c05 import r_traversals
     ck.guard("R-WORKLIST", lambda: r_traversals(ck))  # "every position" is what the zipped traversals visit
+    ck.guard("R-TYPES-CACHE", lambda: T.r_types_cache(ck))  # ... of the fields the class itself declares
+    ck.guard("R-REINSTALL", lambda: T.r_reinstall(ck))
     ck.guard("R-ENUM-SHAPE", lambda: T.r_enum_shape(ck))
     ck.require_count("R-EQ-FORM", 2)
     ck.require_count("R-FULLTRAV", 1)
